@@ -1,7 +1,67 @@
-//! KlingerVolumeOscillator — reference model (TODO).
+//! Klinger Volume Oscillator. Doc: 2 values — `main` value, `signal line` value; 2 signals —
+//!   #0 `main` crosses 0.0 upwards: full buy, downwards: full sell;
+//!   #1 `main` crosses the `signal line` upwards: full buy, downwards: full sell.
+//! Config: `ma1` fast average, `ma2` slow average, `signal` signal-line average.
+//! Formula (linked pages): KO = MA1(VF) - MA2(VF), signal line = SIG(KO), where the volume force VF is
+//! the volume signed by the trend of high + low + close (accumulation when today's sum exceeds
+//! yesterday's, distribution when it is smaller).
 use super::*;
 
-/// returns None until the reference is written
-pub fn make(_cfg: &Cfg, _c0: &RC) -> Option<Box<dyn IndRef>> {
-	None
+#[derive(Clone)]
+pub struct Klinger {
+	ma1: Box<dyn rm::RefVV>,
+	ma2: Box<dyn rm::RefVV>,
+	sig: Box<dyn rm::RefVV>,
+	last_sum: f64,
+	x0: CrossD,
+	x1: CrossD,
+}
+
+fn hlc_sum(c: &RC) -> f64 {
+	c.h + c.l + c.c
+}
+
+pub fn make(cfg: &Cfg, c0: &RC) -> Option<Box<dyn IndRef>> {
+	Some(Box::new(Klinger {
+		// the constant prehistory has no trend: its signed volume is 0, so is every average of it,
+		// and so are KO and its signal line
+		ma1: cfg.ma_ref("ma1", Q::exact(0.0)),
+		ma2: cfg.ma_ref("ma2", Q::exact(0.0)),
+		sig: cfg.ma_ref("signal", Q::exact(0.0)),
+		last_sum: hlc_sum(c0),
+		// previous differences in the prehistory: KO - 0 = 0, KO - signal = 0
+		x0: CrossD::new(0.0),
+		x1: CrossD::new(0.0),
+	}))
+}
+
+impl IndRef for Klinger {
+	fn values(&mut self, c: &RC) -> Vec<Q> {
+		let s = hlc_sum(c);
+		let p = self.last_sum;
+		self.last_sum = s;
+		// trend of the typical price (= trend of high + low + close)
+		let tol = 8.0 * crate::eps() * s.abs().max(p.abs());
+		let dir = if s == p {
+			0.0
+		} else if (s - p).abs() <= tol {
+			// the two sums differ by rounding only: the direction cannot be decided
+			f64::NAN
+		} else if s > p {
+			1.0
+		} else {
+			-1.0
+		};
+		// † follows the implementation: the linked pages scale the volume by |2*(dm/cm) - 1| * 100 (Klinger's
+		// "volume force") and keep the previous trend on equal sums; the doc comment itself gives no formula
+		// and the implementation uses the plainly signed volume sign(Δtp) * volume (0 on an unchanged tp)
+		let v = if dir.is_nan() { Q::undefined() } else { Q::exact(dir * c.v) };
+		let ko = self.ma1.stepq(v) - self.ma2.stepq(v);
+		let sl = self.sig.stepq(ko);
+		vec![ko, sl]
+	}
+	fn signals(&mut self, _c: &RC, own: &[f64]) -> Vec<Sig> {
+		vec![sig_sign(self.x0.cross(own[0], 0.0)), sig_sign(self.x1.cross(own[0], own[1]))]
+	}
+	indref!(Klinger);
 }
